@@ -93,8 +93,8 @@ template <class F> static std::string guarded(F fn)
 }
 
 // ------------------------------------------------------------------ storages
-enum Kind { EMB16, NEW32, NEW64, NEW128, NEW256, NODE64, NODE128, NODE256, CXX16, ITEM32, CXXNODE, TRAITS, CXXNODE16, NKINDS };
-static const char *kname[] = { "emb16", "new32", "new64", "new128", "new256", "node64", "node128", "node256", "cxx16", "item32", "cxxnode", "traits", "cxxnode16" };
+enum Kind { EMB16, NEW32, NEW64, NEW128, NEW256, NODE64, NODE128, NODE256, CXX16, ITEM32, CXXNODE, TRAITS, CXXNODE16, ITEMCOPY, NKINDS };
+static const char *kname[] = { "emb16", "new32", "new64", "new128", "new256", "node64", "node128", "node256", "cxx16", "item32", "cxxnode", "traits", "cxxnode16", "itemcopy" };
 static int kind_of(const std::string &n) { for (int k = 0; k < NKINDS; ++k) if (n == kname[k]) return k; return -1; }
 
 struct H {
@@ -115,6 +115,16 @@ static bool make(H &h, int kind)
 	case CXXNODE16: h.node = LIB(mpt::mpt_node_new(0)); h.obj = h.node; if (h.node) h.id = &h.node->ident; break;    // as linked: mpt++ override -> node::create(0)
 	case CXX16: h.id = LIB(new mpt::identifier()); h.obj = h.id; break;
 	case ITEM32: { mpt::item<mpt::metatype> *it = LIB(new mpt::item<mpt::metatype>()); h.obj = it; h.id = it; break; }
+	case ITEMCOPY: {
+		// item<T> produced by the (implicit or user-defined) item copy constructor from an item that held a 19 character
+		// name; the name is cleared again, so the result is an unset item with whatever capacity / tail bytes the copy left
+		typedef mpt::item<mpt::metatype> item_t;
+		item_t *src = LIB(new item_t());
+		LIB(src->set_name("ABCDEFGHIJKLMNOPQRS", 19));
+		item_t *it = LIB(new item_t(*src));
+		LIB((delete src, 0));
+		LIB(it->set_name(0, 0));
+		h.obj = it; h.id = it; break; }
 	case CXXNODE: h.node = LIB(mpt::node::create((size_t) 40)); h.obj = h.node; if (h.node) h.id = &h.node->ident; break;
 	case TRAITS: {
 		const mpt::type_traits *t = mpt::mpt_identifier_traits();
@@ -135,7 +145,7 @@ static void destroy(H &h)
 		LIB(mpt::mpt_identifier_set(h.id, 0, 0)); free(h.obj); break;           // as the `ident` example does
 	case NODE64: case NODE128: case NODE256: case CXXNODE16: LIB(mpt::mpt_node_destroy(h.node)); break;
 	case CXX16: LIB((delete h.id, 0)); break;
-	case ITEM32: LIB((delete (mpt::item<mpt::metatype> *) h.obj, 0)); break;
+	case ITEM32: case ITEMCOPY: LIB((delete (mpt::item<mpt::metatype> *) h.obj, 0)); break;
 	case CXXNODE: LIB((h.node->~node(), 0)); free(h.obj); break;
 	case TRAITS: LIB((mpt::mpt_identifier_traits()->fini(h.obj), 0)); free(h.obj); break;
 	}
@@ -176,8 +186,8 @@ struct M {
 };
 struct Content { bool unset; size_t len; int fam; };
 
-enum OpT { SET, SETZ, SETNUL, SETOVER, SETNULL, COPY_AB, COPY_BA, COPY_AA, COPY_ANULL, ASSIGN_AB, SELF, CLONE_TRAITS, CLONE_CXX, ASSIGN_AA, CTOR_BACK, SETNAME_OWN };
-static const char *opname[] = { "set", "set(strlen)", "set(embedded NUL)", "set(over-long)", "set(NULL,n)", "copy", "copy", "copy(self)", "copy(NULL)", "operator=", "set(own data)", "traits-init(copy)", "copy-constructor", "operator=(self)", "copy-construct+assign back", "set_name(own name)" };
+enum OpT { SET, SETZ, SETNUL, SETOVER, SETNULL, COPY_AB, COPY_BA, COPY_AA, COPY_ANULL, ASSIGN_AB, SELF, CLONE_TRAITS, CLONE_CXX, ASSIGN_AA, CTOR_BACK, SETNAME_OWN, ITEM_ASSIGN, ITEM_MOVE, ITEM_CTOR };
+static const char *opname[] = { "set", "set(strlen)", "set(embedded NUL)", "set(over-long)", "set(NULL,n)", "copy", "copy", "copy(self)", "copy(NULL)", "operator=", "set(own data)", "traits-init(copy)", "copy-constructor", "operator=(self)", "copy-construct+assign back", "set_name(own name)", "item::operator=(item)", "item::operator=(item&&)", "item copy-constructor" };
 struct OpInst { int t; long a; };
 
 struct Alphabet {
@@ -194,14 +204,15 @@ static M model_of(const Alphabet &al, int cid)
 }
 
 static void add(std::vector<size_t> &v, long x) { if (x >= 0 && x <= 65534 && std::find(v.begin(), v.end(), (size_t) x) == v.end()) v.push_back((size_t) x); }
-static void build_alphabet(Tier t, size_t capA, size_t capB, Alphabet &al)
+static bool is_item(int k) { return k == ITEM32 || k == ITEMCOPY; }
+static void build_alphabet(Tier t, size_t capA, size_t capB, Alphabet &al, int ka = -1, int kb = -1)
 {
 	std::vector<size_t> L;
 	for (long x : {0, 1, 3, 4, 5, 8, 11, 12}) add(L, x);
 	for (size_t c : {capA, capB}) { add(L, (long) c - 1); add(L, (long) c); add(L, (long) c + 1); }   // a text of cap-1 bytes (+NUL) is the last inline one
 	add(L, 253); add(L, 300); add(L, 65534);
 	if (t == Thorough) {
-		for (long x : {2, 7, 10, 13, 251, 252, 4080, 65533}) add(L, x);
+		for (long x : {7, 10, 4080, 65533}) add(L, x);
 		for (size_t c : {capA, capB}) add(L, (long) c - 2);
 	}
 	std::sort(L.begin(), L.end());
@@ -229,6 +240,11 @@ static void build_alphabet(Tier t, size_t capA, size_t capB, Alphabet &al)
 	al.ops.push_back(OpInst{ASSIGN_AA, 0});
 	al.ops.push_back(OpInst{CTOR_BACK, 0});
 	for (int form = 0; form < 2; ++form) al.ops.push_back(OpInst{SETNAME_OWN, form});
+	// new name = a suffix of the identifier's own content (source overlaps the inline bytes)
+	for (int mode = 3; mode < 5; ++mode) al.ops.push_back(OpInst{SELF, mode});
+	// whole-object copies of item<T> (identifier base + trailing _post[] bytes)
+	if (is_item(ka)) al.ops.push_back(OpInst{ITEM_CTOR, 0});
+	if (is_item(ka) && is_item(kb)) { al.ops.push_back(OpInst{ITEM_ASSIGN, 0}); al.ops.push_back(OpInst{ITEM_MOVE, 0}); }
 }
 
 // ------------------------------------------------------------------ observation helpers
@@ -260,9 +276,9 @@ static std::string imgdesc(const mpt::identifier *id)
 	return s;
 }
 
-enum Cnt { C_CMP_EQ, C_CMP_NE, C_CMP_NONTEXT, C_CMP_NODE, C_INEQ_EQ, C_INEQ_NE, C_SETNAME, C_REFUSED, C_OWN, C_CLONE_T, C_CLONE_X, C_SELFCXX, C_LONGEST, C_NOT_ENABLED, C_NEW_BOUND, C_EXPANDED, C_NCNT };
+enum Cnt { C_CMP_EQ, C_CMP_NE, C_CMP_NONTEXT, C_CMP_NODE, C_INEQ_EQ, C_INEQ_NE, C_SETNAME, C_REFUSED, C_OWN, C_CLONE_T, C_CLONE_X, C_SELFCXX, C_ITEM, C_LONGEST, C_NOT_ENABLED, C_NEW_BOUND, C_EXPANDED, C_NCNT };
 static const char *cntname[] = { "compare:equal", "compare:unequal", "compare:nontext", "compare:node_locate", "inequal:equal", "inequal:different", "via identifier::set_name", "refused:over-long",
-                                 "set:own data", "clone:traits", "clone:c++", "c++ self assignment / own name", "path stored the longest permitted content (65535 bytes)", "op not enabled in this state",
+                                 "set:own data", "clone:traits", "clone:c++", "c++ self assignment / own name", "item<T> whole-object copy", "path stored the longest permitted content (65535 bytes)", "op not enabled in this state",
                                  "new states at the depth bound (not expanded)", "states beyond the initial ones (expanded)" };
 struct Tally {
 	uint64_t c[C_NCNT]; uint64_t path[2][3][3];
@@ -399,13 +415,13 @@ struct Sys {
 		case SETZ: case SETNUL: n = op.a + 1; break;
 		case SETOVER: refuse = true; break;
 		case SETNULL: n = op.a; refuse = op.a > 65535; break;
-		case COPY_AB: case ASSIGN_AB: n = mb.size(); break;
+		case COPY_AB: case ASSIGN_AB: case ITEM_ASSIGN: case ITEM_MOVE: n = mb.size(); break;
 		case COPY_BA: n = ma.size(); pre = stclass(mb.size(), b.cap); cap = b.cap; break;
 		case COPY_AA: case ASSIGN_AA: case CTOR_BACK: n = ma.size(); break;
 		case SETNAME_OWN: n = ma.size() ? (op.a ? ma.size() : strlen(ma.b->c_str()) + 1) : 0; break;
 		case COPY_ANULL: n = 0; break;
-		case SELF: n = ma.size() ? (op.a == 0 ? ma.size() - 1 : (op.a == 1 ? 2 : ma.size())) : 0; break;
-		case CLONE_TRAITS: case CLONE_CXX: n = ma.size(); pre = "fresh16"; cap = 12; break;
+		case SELF: n = ma.size() ? (op.a == 0 ? ma.size() - 1 : (op.a == 1 ? 2 : (op.a == 2 ? ma.size() : (op.a == 3 ? ma.size() - 1 : strlen(ma.b->c_str() + 4) + 1)))) : 0; break;
+		case CLONE_TRAITS: case CLONE_CXX: case ITEM_CTOR: n = ma.size(); pre = "fresh16"; cap = 12; break;
 		}
 		const char *post = refuse ? "refused" : stclass(n, cap);
 		return std::string(opname[op.t]) + "|" + pre + "->" + post + "|" + (refuse ? "over-long" : lencls(n, cap));
@@ -425,7 +441,7 @@ struct Sys {
 		bool destA = true, destB = false;
 		uint64_t imgA = 0, imgB = 0;
 		if (op.t == COPY_BA) { destA = false; destB = true; }
-		if (op.t == COPY_AA || op.t == ASSIGN_AA || op.t == CLONE_TRAITS || op.t == CLONE_CXX) destA = false;
+		if (op.t == COPY_AA || op.t == ASSIGN_AA || op.t == CLONE_TRAITS || op.t == CLONE_CXX || op.t == ITEM_CTOR) destA = false;
 		if (!destA) imgA = image(a.id);
 		if (!destB) imgB = image(b.id);
 		switch (op.t) {
@@ -441,7 +457,7 @@ struct Sys {
 			char *tmp = 0;
 			if (len < 0) { tmp = (char *) malloc(tl + 1); memcpy(tmp, bt.stored.data(), tl + 1); arg = tmp; }      // strlen form needs the terminator
 			if (op.t == SETOVER && op.a == 3) { ret = LIB(mpt::mpt_identifier_set(a.id, 0, -1)); }     // negative length without text
-			else if (a.kind >= CXX16 && a.kind <= ITEM32) { bool okc = LIB(a.id->set_name(arg, len)); ret = okc ? (void *) a.id : 0; ++tally->c[C_SETNAME]; }
+			else if ((a.kind >= CXX16 && a.kind <= ITEM32) || a.kind == ITEMCOPY) { bool okc = LIB(a.id->set_name(arg, len)); ret = okc ? (void *) a.id : 0; ++tally->c[C_SETNAME]; }
 			else ret = LIB(mpt::mpt_identifier_set(a.id, arg, len));
 			free(tmp);
 			if (permitted) {
@@ -480,7 +496,18 @@ struct Sys {
 			if (!ret) e = "refused\tcopy(NULL) failed";
 			else ma = M();
 			break; }
-		case SELF: {
+		case SELF: if (op.a >= 3) {
+			// suffix of the own content: k = 1 with explicit length, k = 4 in the strlen form
+			size_t len = ma.size() - 1, k = op.a == 3 ? 1 : 4;
+			const char *own = (const char *) LIB(mpt::mpt_identifier_data(a.id));
+			size_t nl = op.a == 3 ? len - k : strlen(ma.b->c_str() + k);
+			std::string want(*ma.b, k, nl); want.push_back(0);
+			void *ret = LIB(mpt::mpt_identifier_set(a.id, own + k, op.a == 3 ? (int) nl : -1));
+			if (!ret) e = "refused\tsetting an identifier to a suffix of its own text was refused";
+			else { static std::set<std::string> other3; ma.b = &*other3.insert(want).first; ma.cid = -1; }
+			++tally->c[C_OWN];
+			break; }
+		else {
 			size_t len = ma.size() - 1, nl = op.a == 0 ? len - 1 : (op.a == 1 ? 1 : len);
 			const char *own = (const char *) LIB(mpt::mpt_identifier_data(a.id));
 			void *ret = LIB(mpt::mpt_identifier_set(a.id, own, (int) nl));
@@ -493,10 +520,29 @@ struct Sys {
 			}
 			++tally->c[C_OWN];
 			break; }
+		case ITEM_ASSIGN: case ITEM_MOVE: {
+			typedef mpt::item<mpt::metatype> item_t;
+			item_t *ia = (item_t *) a.obj, *ib = (item_t *) b.obj;
+			if (op.t == ITEM_ASSIGN) LIB((*ia = *ib, 0)); else LIB((*ia = std::move(*ib), 0));
+			ma = mb;
+			++tally->c[C_ITEM];
+			break; }
+		case ITEM_CTOR: {
+			typedef mpt::item<mpt::metatype> item_t;
+			item_t *t = LIB(new item_t(*(item_t *) a.obj));
+			H th; th.kind = ITEM32; th.obj = t; th.id = t; th.cap = t->_max;
+			std::string m = memcheck(1 + (ma.size() > th.cap));
+			if (!m.empty()) return m;
+			e = light(th, ma, "T"); if (!e.empty()) return e;
+			e = compares(th, ma, "T"); if (!e.empty()) return e;
+			e = pair_compare(th, ma, a, ma, "T,A"); if (!e.empty()) return e;
+			destroy(th);
+			++tally->c[C_ITEM];
+			break; }
 		case ASSIGN_AA: {
 			// self assignment through a reference; item<T> is assigned its own identifier base
 			const mpt::identifier &self = *a.id;
-			if (a.kind == ITEM32) { mpt::item<mpt::metatype> *it = (mpt::item<mpt::metatype> *) a.obj; LIB((*it = self, 0)); }
+			if (a.kind == ITEM32 || a.kind == ITEMCOPY) { mpt::item<mpt::metatype> *it = (mpt::item<mpt::metatype> *) a.obj; LIB((*it = self, 0)); }
 			else LIB((*a.id = self, 0));
 			++tally->c[C_SELFCXX];
 			break; }
@@ -550,7 +596,7 @@ struct Sys {
 		std::string m = memcheck();
 		if (!m.empty()) return m;
 		if (!e.empty()) return e;
-		const char *who = (op.t == COPY_AB || op.t == ASSIGN_AB || op.t == COPY_BA || op.t == CLONE_TRAITS || op.t == CLONE_CXX) ? "source" : "bystander";
+		const char *who = (op.t == COPY_AB || op.t == ASSIGN_AB || op.t == COPY_BA || op.t == CLONE_TRAITS || op.t == CLONE_CXX || op.t >= ITEM_ASSIGN) ? "source" : "bystander";
 		if (!destA && image(a.id) != imgA) return fmt("%s\tA was changed although it is only the %s of this operation", who, (op.t == COPY_AA || op.t == ASSIGN_AA) ? "source and target of a self copy / self assignment" : "source");
 		if (!destB && image(b.id) != imgB) return fmt("%s\tB was changed although it is %s", who, who[0] == 's' ? "only the source of this operation" : "not involved in this operation");
 		e = light(a, ma, "A"); if (!e.empty()) return e;
@@ -571,7 +617,10 @@ static std::string opdesc(const Alphabet &al, const OpInst &op)
 	case COPY_AA: return "copy(A <- A)";
 	case COPY_ANULL: return "copy(A <- NULL)";
 	case ASSIGN_AB: return "A = B (identifier::operator=)";
-	case SELF: return op.a == 0 ? "set(A, data(A), len-1)" : (op.a == 1 ? "set(A, data(A), 1)" : "set(A, data(A), len)");
+	case SELF: return op.a == 0 ? "set(A, data(A), len-1)" : (op.a == 1 ? "set(A, data(A), 1)" : (op.a == 2 ? "set(A, data(A), len)" : (op.a == 3 ? "set(A, data(A)+1, len-1)" : "set(A, data(A)+4, -1)")));
+	case ITEM_ASSIGN: return "item A = item B (item<T> copy assignment)";
+	case ITEM_MOVE: return "item A = std::move(item B) (item<T> move assignment)";
+	case ITEM_CTOR: return "item<T> T(A); ~T";
 	case CLONE_TRAITS: return "traits->init(T, A); traits->fini(T)";
 	case CLONE_CXX: return "identifier T(A); ~T";
 	case ASSIGN_AA: return "A = A (identifier::operator= through a reference; item<T>: own identifier base)";
@@ -610,7 +659,7 @@ static void prepare(Run &r, PairJob &pj, const std::string &job)
 	pj.ka = kind_of(job.substr(2, p - 2)); pj.kb = kind_of(job.substr(p + 3));
 	r.hint("storage creation");
 	H ha, hb; make(ha, pj.ka); make(hb, pj.kb);
-	build_alphabet(r.tier, ha.cap, hb.cap, pj.al);
+	build_alphabet(r.tier, ha.cap, hb.cap, pj.al, pj.ka, pj.kb);
 	destroy(ha); destroy(hb);
 	// images of all initial states (real code: fresh storage + one set)
 	r.hint("initial state construction");
@@ -672,7 +721,7 @@ static void pair_body(Run &r, PairJob &pj, Ctx &x)
 	bool last_nontrivial = false, dirtyA = false, dirtyB = false;
 	for (int depth = 1;; ++depth) {
 		const OpInst &op = al.ops[oi];
-		if ((op.t == SELF && (s.ma.cs != UTF8 || s.ma.size() < 2)) || (op.t == SETNAME_OWN && s.ma.cs != UTF8)) { ++pj.tally.c[C_NOT_ENABLED]; break; }
+		if ((op.t == SELF && (s.ma.cs != UTF8 || s.ma.size() < 2 || (op.a == 4 && (s.ma.size() < 6 || s.ma.size() > s.a.cap)))) || (op.t == SETNAME_OWN && s.ma.cs != UTF8)) { ++pj.tally.c[C_NOT_ENABLED]; break; }
 		std::string pre;
 		if (r.replaying) { pre = fmt(" [A %s, B %s]", mdesc(s.ma, s.a.cap).c_str(), mdesc(s.mb, s.b.cap).c_str()); r.note("%s ; %s%s", where().c_str(), opdesc(al, op).c_str(), pre.c_str()); }
 		std::string cls = s.classify(al, op);        // state class before the op
@@ -684,7 +733,7 @@ static void pair_body(Run &r, PairJob &pj, Ctx &x)
 		if (!res.empty()) { report(r, cls, res, where()); return; }
 		{
 			int postA = clsidx(s.ma.size(), s.a.cap);
-			bool replaces = op.t == SET || op.t == SETZ || op.t == SETNUL || (op.t == SETNULL && op.a <= 65535) || op.t == COPY_AB || op.t == ASSIGN_AB || op.t == SELF || op.t == CTOR_BACK || op.t == SETNAME_OWN;
+			bool replaces = op.t == SET || op.t == SETZ || op.t == SETNUL || (op.t == SETNULL && op.a <= 65535) || op.t == COPY_AB || op.t == ASSIGN_AB || op.t == SELF || op.t == CTOR_BACK || op.t == SETNAME_OWN || op.t == ITEM_ASSIGN || op.t == ITEM_MOVE;
 			last_nontrivial = (preA == 2) != (postA == 2) || (preA == 2 && postA == 2 && replaces);
 			if (op.t <= SETNULL || op.t == SELF) ++pj.tally.path[0][preA][postA];
 			else if (op.t <= ASSIGN_AB && op.t != COPY_BA) ++pj.tally.path[1][preA][postA];
@@ -694,7 +743,7 @@ static void pair_body(Run &r, PairJob &pj, Ctx &x)
 		// complete content with the model, so image + content index identify the state.)
 		bool knownA = s.ma.cid >= 0 && image(s.a.id) == al.knownA[s.ma.cid], knownB = s.mb.cid >= 0 && image(s.b.id) == al.knownB[s.mb.cid];
 		bool known = knownA && knownB;
-		if (op.t == COPY_BA) dirtyB = true; else if ((op.t != COPY_AA && op.t < CLONE_TRAITS) || op.t == CTOR_BACK || op.t == SETNAME_OWN) dirtyA = true;
+		if (op.t == COPY_BA) dirtyB = true; else if ((op.t != COPY_AA && op.t < CLONE_TRAITS) || op.t == CTOR_BACK || op.t == SETNAME_OWN || op.t == ITEM_ASSIGN || op.t == ITEM_MOVE) dirtyA = true;
 		bool expand = !known && depth < DEPTH;
 		if (!known && !expand) ++pj.tally.c[C_NEW_BOUND];
 		if (expand) {
@@ -912,10 +961,15 @@ static void list_body(Run &r, Ctx &x, const std::string &job, ListCounters &lc)
 void mc_jobs(Tier t, std::vector<std::string> &jobs)
 {
 	std::vector<int> bk;
-	// A runs through every storage kind; B (source / second target of copies) through storages of inline capacity 12, 20, 60, 84, 212, 252
-	if (t == Quick) bk = { EMB16, ITEM32, NEW256 };
-	else bk = { EMB16, NODE64, NEW64, CXXNODE, NODE256, NEW256 };
+	// A runs through every storage kind; B (source / second target of copies) through storages of inline capacity 12, 84, 212, 252 (quick: 12, 252); capacity 20 in the item<T> pairs
+	if (t == Quick) bk = { EMB16, NEW256 };
+	else bk = { EMB16, CXXNODE, NODE256, NEW256 };
 	for (int a = 0; a < NKINDS; ++a) for (int b : bk) jobs.push_back(std::string("A=") + kname[a] + ",B=" + kname[b]);
+	// item<T> against item<T> (default-constructed and copy-constructed): whole-object copy operations
+	for (int a : {ITEM32, ITEMCOPY}) for (int b : {ITEM32, ITEMCOPY}) {
+		std::string j = std::string("A=") + kname[a] + ",B=" + kname[b];
+		if (std::find(jobs.begin(), jobs.end(), j) == jobs.end()) jobs.push_back(j);
+	}
 	jobs.push_back("alloc");
 	for (size_t i = 0; i < list_names(t).size(); ++i) jobs.push_back("list=" + std::to_string(i));
 }
@@ -927,7 +981,7 @@ static void declare(Run &r, bool pair)
 	for (const char *k : {"path set:unset->inline", "path set:unset->ext", "path set:inline->inline", "path set:inline->ext", "path set:ext->inline", "path set:ext->ext", "path set:ext->unset", "path set:inline->unset",
 	                      "path copy:unset->inline", "path copy:unset->ext", "path copy:inline->inline", "path copy:inline->ext", "path copy:ext->inline", "path copy:ext->ext", "path copy:ext->unset", "path copy:inline->unset",
 	                      "path stored the longest permitted content (65535 bytes)", "refused:over-long", "compare:equal", "compare:unequal", "compare:nontext", "compare:node_locate", "inequal:equal", "inequal:different",
-	                      "set:own data", "clone:traits", "clone:c++", "c++ self assignment / own name", "via identifier::set_name", "states beyond the initial ones (expanded)"})
+	                      "set:own data", "clone:traits", "clone:c++", "c++ self assignment / own name", "item<T> whole-object copy", "via identifier::set_name", "states beyond the initial ones (expanded)"})
 		r.require(k);
 }
 
